@@ -76,14 +76,20 @@ def _def():
 
 _def()
 
+LAST = [None]
 FORMS = ["direct", "op", "rop", "getitem", "getattr", "list", "dict", "nested", "cond", "catch", "seq", "map", "chain", "lit"]
 
 
-def gen_arg(rnd, uid):
-    """Returns (form, build() -> expression, required uids, allowed uids, uids used)."""
-    f = rnd.choice(FORMS)
-    u = uid[0]
-    uid[0] += 3
+def gen_arg(rnd, uid, force=None):
+    """Returns (form, build() -> expression, required uids, allowed uids, uids used).  force=(form, u) builds a second,
+    distinct expression object for the same producer call (a duplicate within one parent job)."""
+    if force:
+        f, u = force
+    else:
+        f = rnd.choice(FORMS)
+        u = uid[0]
+        uid[0] += 3
+    LAST[0] = (f, u)
     if f == "direct":
         return f, lambda: T["src"](u), {("src", u)}, {("src", u)}
     if f == "op":
@@ -123,7 +129,15 @@ def gen_program(rnd):
     for tag in range(rnd.randint(1, 3)):
         kind = rnd.choice(["sink2", "sink2d", "sink3", "sink3k"])
         nargs = {"sink2": 2, "sink2d": 1, "sink3": rnd.randint(1, 3), "sink3k": rnd.randint(1, 2)}[kind]
-        args = [gen_arg(rnd, uid) for _ in range(nargs)]
+        args = []
+        for k in range(nargs):
+            if k > 0 and prev[0] in ("direct", "op", "getitem", "getattr", "list") and rnd.random() < 0.35:
+                a = gen_arg(rnd, uid, force=prev)     # the same producer call again, as another expression object
+                a = ("dup-" + a[0],) + tuple(a[1:])
+            else:
+                a = gen_arg(rnd, uid)
+            prev = LAST[0]
+            args.append(a)
         kw = gen_arg(rnd, uid) if kind == "sink3k" else None
         sinks.append((kind, tag, args, kw))
     return sinks
